@@ -53,3 +53,12 @@ Theorem C18_blank_line_detectors_agree : forall pre g post,
   = Some (gap_has_empty_line g) /\ gap_has_empty_line g = has_empty_line g.
 Proof. intros pre g post. split; [apply offsets_twin_agrees | apply gap_has_empty_line_eq]. Qed.
 Print Assumptions C18_blank_line_detectors_agree.
+
+From F0 Require Import FmtLib.
+From Dyn Require Import FmtGen FmtGenProps.
+
+(* the repaired layout of a second trailing comment (F-54), over the regenerated format_trivia: it starts its own line at the structural indent *)
+Theorem C18_late_comment_own_line : forall l indent,
+  format_trivia_gen (map of_triv l) indent = Some (format_trivia (demote l false) indent).
+Proof. exact format_trivia_gen_spec. Qed.
+Print Assumptions C18_late_comment_own_line.
